@@ -26,8 +26,31 @@ def make_files(ctx, sch, rng, n):
             # default 0): the exporter never does, other writers do
             try: data = strip_default_index(data)
             except Exception: pass
+        if len(files) % 4 == 2:
+            # EMPTY blocks (a block preamble, perhaps statistics, and no item): the exporter never writes one, other writers do; the property
+            # speaks of "every non-empty block", so inputs may hold empty ones - in front of, between and after the others
+            try: data = insert_empty_blocks(data, rng)
+            except Exception: pass
         files.append({"data": data, "h": h})
     return files
+
+def insert_empty_blocks(data, rng):
+    t = refcbor.parse_all(data)
+    top = list(t[1]); ba = top[2]
+    u = lambda v: ("u", v, 0)
+    def empty():
+        pre = [(u(0), ("a", [u(rng.choice([0, 5, 1600000000])), u(0)], False, 0))]
+        if rng.random() < 0.5: pre.append((u(1), u(0)))
+        ents = [(u(0), ("m", pre, False, 0))]
+        if rng.random() < 0.4: ents.append((u(1), ("m", [(u(0), u(rng.choice([0, 3])))], False, 0)))      # statistics only
+        return ("m", ents, False, 0)
+    blocks = list(ba[1])
+    where = rng.choice(["first", "first", "middle", "last", "all"])
+    if where in ("first", "all"): blocks.insert(0, empty())
+    if where in ("middle", "all") and len(blocks) > 1: blocks.insert(rng.randrange(1, len(blocks)), empty())
+    if where in ("last", "all"): blocks.append(empty())
+    top[2] = ("a", blocks, ba[2], ba[3] if len(ba) > 3 else 0)
+    return refcbor.encode(("a", top, t[2], t[3]))
 
 def strip_default_index(data):
     t = refcbor.parse_all(data)
@@ -189,7 +212,7 @@ def run(ctx):
     rep.cov["merged_file_theorem_premises"] = prem
     common.summarize_cov(rep, cases,
         "tuples of 1-4 arguments for the real cdns-merge binary (ASan/UBSan build) drawn from exporter-produced files with 1-3 parameter sets and "
-        "differing tick rates: intact files, files cut at a random byte, garbage, missing paths, the same path twice, files of another "
+        "differing tick rates (a quarter of them with EMPTY blocks - preamble, perhaps statistics, no item - inserted in front of, between or after the others, as other writers may produce them): intact files, files cut at a random byte, garbage, missing paths, the same path twice, files of another "
         "major.minor.private version. The merged file is parsed independently and must hold exactly the non-empty blocks of the accepted inputs "
         "in argument order with equal records, statistics, times and parameter sets; compared with the model's output; the real cdns-itemcount "
         "(totals and -b) is compared with the independent parse and with the model", diffs, fails)
